@@ -7,18 +7,41 @@ the dependence functions bound to parameters of `h` (keyword arguments of the co
 keyword order, duplicates allowed).  What `_fit` computes numerically is *not* part of this
 model; a `_fit` execution is an event: it bumps the function's version counter, records the
 versions of all functions at that moment (`seen`), and is appended to the log.
+
+The INPUTS of every `_fit` are part of the model:
+* data: every public `fit(x, y)` call carries a *data epoch* (a `Nat` chosen by the caller, think
+  "the pairs of the n-th `model.fit`"); `xyEpoch h` is the epoch of the pairs stored in
+  `h.x, h.y`; every `_fit` event records the epoch of the pairs it received (`Ev.data`), and
+  `lastData h` is the epoch used by `h`'s last `_fit`;
+* start values: `p0At h` models `h._p0`: `none` while `_p0 is None`, otherwise the version of
+  `h`'s own parameters at the moment `_p0` was captured (`0` = the values the constructor put in
+  place, `k > 0` = the result of the `k`-th `_fit`); every `_fit` event records the token of the
+  start values it handed to the optimiser (`Ev.p0`);
+* `Ev.call` is the (1-based) number of the public `fit` call during which the `_fit` ran.
 -/
 namespace VirVerif.Dep
 
 /-- pointwise update (core-only, computable) -/
 def upd {β} (f : Nat → β) (i : Nat) (v : β) : Nat → β := fun j => if j = i then v else f j
 
+/-- one `_fit` execution together with its inputs -/
+structure Ev where
+  /-- the function that was fitted -/
+  fn : Nat
+  /-- epoch of the `(x, y)` pairs `_fit` received -/
+  data : Nat
+  /-- start-value token handed to the optimiser (see the file header) -/
+  p0 : Nat
+  /-- number of the public `fit` call (1-based) during which this `_fit` ran -/
+  call : Nat
+deriving DecidableEq, Repr
+
 /-- mutable part of all `DependenceFunction` objects, indexed by declaration order -/
 structure Mut where
   /-- `_may_fit` -/
   mayFit  : Nat → Bool
-  /-- `hasattr(self, "x") and hasattr(self, "y")` -/
-  hasXY   : Nat → Bool
+  /-- epoch of the pairs stored in `self.x, self.y` (`none` = the attributes do not exist) -/
+  xyEpoch : Nat → Option Nat
   /-- `_fitted_conditioners` (a set; kept as a duplicate-free list in insertion order) -/
   fitted  : Nat → List Nat
   /-- number of `_fit` executions -/
@@ -27,6 +50,17 @@ structure Mut where
   seen    : Nat → Nat → Nat
   /-- the `_fit` executions so far, newest first -/
   log     : List Nat
+  /-- epoch of the pairs used by the last `_fit` (`none` = never fitted) -/
+  lastData : Nat → Option Nat
+  /-- `self._p0` as a token (`none` = `_p0 is None`) -/
+  p0At    : Nat → Option Nat
+  /-- the `_fit` executions with their inputs, newest first -/
+  evlog   : List Ev
+  /-- number of public `fit` calls so far -/
+  calls   : Nat
+
+/-- `hasattr(self, "x") and hasattr(self, "y")` -/
+def Mut.hasXY (s : Mut) (h : Nat) : Bool := (s.xyEpoch h).isSome
 
 /-- is the declaration list one that Python can construct?  (`decls[i]` may only mention objects
 that exist when object `i` is constructed) -/
@@ -50,40 +84,73 @@ def dependents (N : Nat) (conds : Nat → List Nat) (f : Nat) : List Nat :=
 /-- set insertion -/
 def insertNew (a : Nat) (l : List Nat) : List Nat := if l.contains a then l else l ++ [a]
 
-/-- the numerical `_fit` of `f`, as an event -/
-def bump (s : Mut) (f : Nat) : Mut :=
+/-- the start values `_fit` uses: `if self._p0 is None: self._p0 = tuple(self.parameters.values())`
+— the current parameters of `f` are those of its version `s.version f` -/
+def p0Token (s : Mut) (f : Nat) : Nat :=
+  match s.p0At f with
+  | some t => t
+  | none => s.version f
+
+/-- the numerical `_fit(x, y)` of `f` on pairs of epoch `e`, as an event -/
+def bump (s : Mut) (f e : Nat) : Mut :=
   { s with version := upd s.version f (s.version f + 1),
            seen := upd s.seen f (fun g => s.version g),
-           log := f :: s.log }
+           log := f :: s.log,
+           lastData := upd s.lastData f (some e),
+           p0At := upd s.p0At f (some (p0Token s f)),
+           evlog := { fn := f, data := e, p0 := p0Token s f, call := s.calls } :: s.evlog }
 
-/-- `h.callback(caller = f)`; `refit h` stands for `self.fit(self.x, self.y)` -/
-def callback (conds : Nat → List Nat) (refit : Nat → Mut → Mut) (f : Nat) (s : Mut) (h : Nat) : Mut :=
+/-- `h.callback(caller = f)`; `refit h e` stands for `self.fit(self.x, self.y)` where the stored
+pairs are those of epoch `e` (the inner `fit` stores the same objects again and, `_may_fit` being
+true now, runs `_fit` on them) -/
+def callback (conds : Nat → List Nat) (refit : Nat → Nat → Mut → Mut) (f : Nat) (s : Mut) (h : Nat) : Mut :=
   let s2 : Mut := { s with fitted := upd s.fitted h (insertNew f (s.fitted h)) }
   -- `self._fitted_conditioners.issubset(self.dependent_parameters.values())`
   if (s2.fitted h).all (fun g => (conds h).contains g) then
     let s3 : Mut := { s2 with mayFit := upd s2.mayFit h true }
-    if s3.hasXY h then refit h s3 else s3
+    match s3.xyEpoch h with
+    | some e => refit h e s3
+    | none => s3
   else s2
 
-/-- `_fit` followed by the callbacks on all registered dependents (fuel = recursion depth;
-`doFit_fuel_irrelevant` shows that `N - f` is always enough) -/
-def doFit (N : Nat) (conds : Nat → List Nat) : Nat → Nat → Mut → Mut
-  | 0, _, s => s
-  | fuel + 1, f, s =>
-    (dependents N conds f).foldl (callback conds (doFit N conds fuel) f) (bump s f)
+/-- `_fit(x, y)` of `f` on pairs of epoch `e`, followed by the callbacks on all registered
+dependents (fuel = recursion depth; `callbacks_terminate` shows that `N - f` is always enough) -/
+def doFit (N : Nat) (conds : Nat → List Nat) : Nat → Nat → Nat → Mut → Mut
+  | 0, _, _, s => s
+  | fuel + 1, f, e, s =>
+    (dependents N conds f).foldl (callback conds (doFit N conds fuel) f) (bump s f e)
 
-/-- the public `fit(x, y)` -/
-def fitCall (N : Nat) (conds : Nat → List Nat) (f : Nat) (s : Mut) : Mut :=
-  let s1 : Mut := { s with hasXY := upd s.hasXY f true }
-  if s1.mayFit f then doFit N conds N f s1 else s1
+/-- the public `fit(x, y)` with pairs of epoch `e`:
+`self.x = x; self.y = y; if self._may_fit: self._fit(self.x, self.y)` -/
+def fitCall (N : Nat) (conds : Nat → List Nat) (f e : Nat) (s : Mut) : Mut :=
+  let s1 : Mut := { s with xyEpoch := upd s.xyEpoch f (some e), calls := s.calls + 1 }
+  if s1.mayFit f then doFit N conds N f e s1 else s1
+
+/-- NOT the code: the seeded variant that stores the pairs only when the fit is deferred,
+`if self._may_fit: self._fit(x, y) else: self.x = x; self.y = y`
+(the callback's `self.fit(self.x, self.y)` then re-fits the pairs of an earlier epoch).  Kept to make
+the difference explicit, see `C14.stale_variant_refits_old_pairs`. -/
+def fitCallStale (N : Nat) (conds : Nat → List Nat) (f e : Nat) (s : Mut) : Mut :=
+  let s1 : Mut := { s with calls := s.calls + 1 }
+  if s1.mayFit f then doFit N conds N f e s1
+  else { s1 with xyEpoch := upd s1.xyEpoch f (some e) }
 
 /-- state after all constructors have run -/
 def init (conds : Nat → List Nat) : Mut :=
-  { mayFit := fun f => (conds f).isEmpty, hasXY := fun _ => false, fitted := fun _ => [],
-    version := fun _ => 0, seen := fun _ _ => 0, log := [] }
+  { mayFit := fun f => (conds f).isEmpty, xyEpoch := fun _ => none, fitted := fun _ => [],
+    version := fun _ => 0, seen := fun _ _ => 0, log := [],
+    lastData := fun _ => none, p0At := fun _ => none, evlog := [], calls := 0 }
 
-/-- a whole history of public `fit` calls -/
-def runHistory (N : Nat) (conds : Nat → List Nat) (ops : List Nat) : Mut :=
-  ops.foldl (fun s f => fitCall N conds f s) (init conds)
+/-- a whole history of public `fit` calls `(function, data epoch)` -/
+def runHistory (N : Nat) (conds : Nat → List Nat) (ops : List (Nat × Nat)) : Mut :=
+  ops.foldl (fun s p => fitCall N conds p.1 p.2 s) (init conds)
+
+/-- the same history on the seeded variant `fitCallStale` -/
+def runHistoryStale (N : Nat) (conds : Nat → List Nat) (ops : List (Nat × Nat)) : Mut :=
+  ops.foldl (fun s p => fitCallStale N conds p.1 p.2 s) (init conds)
+
+/-- one complete round: every function of `order` is `fit`-called with pairs of epoch `r`
+(`ConditionalDistribution.fit` loops over its parameters dict in this way) -/
+def round (order : List Nat) (r : Nat) : List (Nat × Nat) := order.map fun f => (f, r)
 
 end VirVerif.Dep
